@@ -89,7 +89,7 @@ PROPS = {
             "the pty line discipline in raw mode passes bytes through unchanged; one read() returns everything queued (<= 1024)",
             "ESC ESC: poll(100 ms) is modelled as 'the next key press arrives within the window' (the harness delivers it as soon as the reader blocks)",
             "SIGWINCH / SIGTSTP / real select-poll timing are exercised by the harness only (thorough tier), not proved"],
-        "unproved": ["C17_decoder_progress_statement", "C17_editor_no_panic_statement"],
+        "unproved": ["C17_editor_no_panic_statement"],
         "level_text": "Lean theorems about the input-queue model (a byte read consumes exactly one byte, fails only on hang-up, waiting "
                       "loses nothing) and an executable model of the whole decoder and editor that is diffed against the real "
                       "Editor::readline on a pseudo-terminal for arbitrary byte streams; the no-panic / no-wedge / no-stall oracle runs "
@@ -278,6 +278,87 @@ PROPS["C14"] = {
     "level_note": 'Trusted: Lean kernel; pty harness; completers reporting start > cursor are excluded (helper bug).',
     "assumptions": ["keyseq_timeout = None (default)"],
 }
+
+PROPS["C16"] = {
+        "module": "Rl.Props.C16",
+        "targets": [{"name": "raw", "gen": "raw", "header_tokens": 5}],
+        "shards": {"quick": 8, "thorough": 16},
+        "rule": "raw: the real Editor::readline on a pty whose slave termios is installed from the request (tcsetattr) and read "
+                "back with tcgetattr before the read, each time the reader thread is blocked waiting for a key (ties enable_raw_mode "
+                "to the code) and after the read; the output stream is scanned for every ESC[?2004h / ESC[?2004l. Enumerated: every "
+                "prefix of an emacs and a vi key script (with C-z suspend/resume, a search, kills/yanks) x 9 terminating events "
+                "(Enter, C-j, C-d on the emptied line, C-c, invalid UTF-8 byte 0xff, truncated UTF-8 c3 28, validator Err, validator "
+                "panic at its 1st and at its 3rd call under catch_unwind) x bracketed paste on/off x enable_signals on/off x initial "
+                "settings {cooked, cfmakeraw, one of 32 single tweaks}; every one of the ~34 fixed initial settings (ECHO/ICANON/ISIG/"
+                "IEXTEN off, ICRNL off, IXON on/off, VMIN=0/7, VTIME=5, IUCLC, XCASE, OFILL, INLCR, IGNCR, PARMRK, OPOST off, ...) x "
+                "terminator x flags; two and three reads in a row on one editor for every pair of terminators; random: 1500 (thorough "
+                "40000) requests with random settings (a third with arbitrary bits in c_iflag/c_oflag/c_lflag and random control "
+                "characters), random emacs/vi scripts from the ed generators, 1..3 reads. distinct = hash of the request; "
+                "trivial = the read ended by the hang-up (nothing to restore).",
+        "trivial_impl_regex": r"(b=\S+ d=\S+ a=gone p=\S+ r=\S+)",
+        "exhaustive": {"quick": False, "thorough": False},
+        "trusted_base": [
+            "Rust drops a live Guard on every way out of its scope (return, `?`, unwinding); the model's Flow encodes exactly that",
+            "the kernel stores what tcsetattr is given and tcgetattr reads it back (observed on the pty for every request, "
+            "including the settings in force DURING the read)",
+            "nix 0.29 Termios: typed flag words built with from_bits_truncate (masks 0x7dff / 0xffbf / 0xd00f1fff / 0x1dffb on "
+            "Linux), get_libc_termios writes them over `inner`, From<Termios> for libc::termios hands out `inner` untouched; "
+            "the masks are checked by the arbitrary-bit requests",
+            "line discipline in raw mode (ISIG characters swallowed, IGNCR, INLCR, PARMRK doubling of 0xff) modelled by "
+            "Rl.RawMode.ldiscIn to predict how the read ends; OLCUC is never set (it would upper-case the paste switch on its way "
+            "to the master); VINTR/VQUIT/VSUSP/VEOF stay at their defaults (the editor model hard-wires the default key map)",
+            "SIGTSTP is ignored in the harness process, so a suspend resumes at once; settings changed by the shell while "
+            "stopped are covered by the theorems (Suspend.env) but not exercised",
+            "helper panics are exercised through the validator only; the `termios` cargo feature (other termios_ module) is not built"],
+        "level_text": "Unbounded Lean theorems about the raw-mode model: for every initial termios, configuration, number of "
+                      "suspend/resume round trips and every exit constructor except the hang-up, the settings after the read equal "
+                      "those before it, the paste switches written are ON (OFF ON)* OFF or none, every exit passes through the "
+                      "guard's drop, n successive reads preserve the settings, and raw mode changes exactly the documented bits. "
+                      "The model (including the three termios values and the switch sequence) is diffed against the real "
+                      "Editor::readline on a pseudo-terminal and the C16 oracle runs on the implementation's own tcgetattr results.",
+        "level_note": "Trusted: Lean kernel; pty harness and diff; Rust drop semantics; kernel tty layer; nix wrapper semantics as "
+                      "read from its source (mask values observed). Hang-up exit excluded by the property (C17).",
+        "assumptions": ["the terminal stays connected (property text)",
+                        "writes of a paste switch either always succeed or always fail during one read (Cfg.writeOk)"],
+    }
+
+PROPS["C19"] = {
+        "module": "Rl.Props.C19",
+        "targets": [{"name": "pr", "gen": "pr", "header_tokens": 4}],
+        "shards": {"quick": 8, "thorough": 16},
+        "rule": "pr: 1-3 real threads calling ExternalPrinter::print against the real Editor::readline on a pty (emacs mode, "
+                "cols 80/20/10 so that lines wrap). Scenarios of 2-4 reads: prints between reads, racing with the start of a read "
+                "(issued right before / after the read is requested, no barrier), during a read with keys one at a time or as "
+                "type-ahead racing with the prints, racing with Enter, after the read; messages with and without trailing line "
+                "break; seed-dependent spins/pauses perturb the schedule; 1 scenario in 16 sends a message while the digit-argument "
+                "sub-loop waits (D21). Every scenario ends with a read that reaches a barrier (all print calls returned, reader "
+                "asleep in select) before its Enter. 1400 scenarios (thorough 12000) + 6 fixed ones. The observation is the terminal "
+                "stream reduced to markers/messages merged with the main thread's actions; the correspondence is: the trace is a trace "
+                "of the protocol model (breadth-first replay over all interleavings of the atomic steps); the oracle checks whole / "
+                "at most once / shown at the barrier / order within one wait / repaint after a shown message / no direct write "
+                "inside a read / returned lines equal the typed text. distinct = hash of the request.",
+        "trivial_impl_regex": r"",
+        "exhaustive": {"quick": False, "thorough": False},
+        "trusted_base": [
+            "SeqCst AtomicBool, std::sync::mpsc::sync_channel(1) (one buffered message, send blocks while full, try_recv finds a "
+            "completed send), Mutex and pipe semantics are assumed as modelled in Rl/Printer.lean",
+            "one write(2) of a short message to a terminal is atomic with respect to other writers (tty atomic_write_lock): messages are atomic events in the model",
+            "the harness reduces the byte stream to events (message pattern `[[T<t>M<id>]]`, shown = directly preceded by the row-clearing "
+            "sequence, repaint = line break + cleared row + prompt); barriers are placed at stream positions where the /proc observation "
+            "(thread asleep in select / read(0), nothing pending on the tty, all keys dispatched) held with no output in flight",
+            "the schedule is randomised, not enumerated: interleavings the OS never produces are covered by the Lean theorems only"],
+        "level_text": "Unbounded Lean theorems over all interleavings of the atomic steps of the printer protocol, for any number of printer "
+                      "threads and messages: every message handed to print is in exactly one place (in hand, channel, editor, terminal) and "
+                      "reaches the terminal at most once; the wake-up pipe holds a byte only when the channel holds a message, so a wake-up "
+                      "always finds its message; per thread the shown messages (and the directly written ones) appear in send order; when the "
+                      "reader is blocked in select and no printer holds the writer lock the channel is empty and every returned print is on the "
+                      "terminal; showing a message leaves the edited text alone. The model is tied to /repo by replaying traces of real threads "
+                      "on a pty. Findings D18 (direct write over the prompt) and D21 (sub-loops defer messages) are reachable states of the model.",
+        "level_note": "Trusted: Lean kernel; atomics/channel/mutex/pipe semantics as modelled; tty write atomicity; the harness's stream parser and "
+                      "/proc-based barriers. The repaint is checked on the stream (prompt follows), not through the C02 screen emulator.",
+        "assumptions": ["'a read waits with no key pending' is evaluated at barriers where every print call has returned",
+                        "emacs mode; sub-loop = digit argument"],
+    }
 
 # properties not (yet) claimed, with the reason (kept current; see DESIGN.md)
 NOT_APPLICABLE = {
